@@ -91,7 +91,18 @@ def run_engine(tier, seed, known, only):
             if not ok:
                 if status == "FAIL" and not expect_fail:
                     mdl = sv.model()
-                    out["inconclusive"].append({"obligation": rec["name"], "reason": "refuted for seed %s - no native replay wired for this obligation" % mdl.eval(s, model_completion=True)})
+                    sd = mdl.eval(s, model_completion=True).as_long()
+                    import subprocess, json
+                    env = dict(os.environ); env["CARGO_NET_OFFLINE"] = "true"; env["VERIF_DET_SEED"] = str(sd)
+                    pr = subprocess.run(["cargo", "test", "--release", "--offline", "--target-dir", os.path.join(_k.BUILD, "C14", "native_num"), "--test", "c14_native", "determinism_seed", "--", "--exact"],
+                                        cwd=_k.crate_dir("num"), env=env, stdout=subprocess.PIPE, stderr=subprocess.STDOUT, text=True)
+                    if "test result: FAILED" in pr.stdout:
+                        rdir = os.path.join(_k.VERIF, "replays", "C14"); os.makedirs(rdir, exist_ok=True)
+                        path = os.path.join(rdir, "determinism_seed_%d.json" % sd)
+                        json.dump({"property": "C14", "seed": sd, "how": "VERIF_DET_SEED=%d cargo test --release --test c14_native determinism_seed (harness/num)" % sd}, open(path, "w"))
+                        out["violations"].append("VIOLATION property=C14 replay=%s" % os.path.relpath(path, _k.VERIF))
+                    else:
+                        out["inconclusive"].append({"obligation": rec["name"], "reason": "refuted for seed %d but the native run does not show it" % sd})
                 else:
                     out["inconclusive"].append({"obligation": rec["name"], "reason": "z3 %s" % status})
     except core.Unsupported as e:
